@@ -59,6 +59,10 @@ type nNode struct {
 	hkind    int
 	valueID  atree.ValueID
 	sid      atree.SlabID
+	// the parent (and the generation of its wrapper) against which this handle's parent callback was registered
+	wgen     int
+	cbParent *nNode
+	cbGen    int
 }
 
 type nElem struct {
@@ -202,6 +206,7 @@ type nH struct {
 	toStandalone int
 	toInline     int
 	maxDepth     int
+	cur          *nNode // target of the operation in progress
 	detachedMut  int
 	detaches     int
 	attaches     int
@@ -221,6 +226,14 @@ type nAbort struct{}
 
 func (H *nH) check(err error, what string) {
 	if err != nil {
+		// known finding F6: a detached container that has not been mutated since it left its parent still
+		// carries its parent callback; the callback holds the parent WRAPPER of that time; when the client has
+		// since re-obtained the parent (a new wrapper, the old one abandoned) or disposed of it, the first
+		// mutation through the detached handle runs the callback on the outdated wrapper and fails inside it
+		if c := H.cur; c != nil && c.parent == nil && c.cbParent != nil && (c.cbParent.dead || c.cbParent.wgen != c.cbGen) {
+			H.fail("C11: F6 the first mutation through the handle of a detached container fails inside its outdated parent callback (the client has re-obtained or disposed of the former parent since)", what+": "+err.Error())
+			panic(nAbort{})
+		}
 		if H.onDetached && strings.HasPrefix(what, "C10: ") {
 			what = "C11: (operation through the handle of a detached container) " + what[5:]
 		}
@@ -787,6 +800,7 @@ type nPre struct {
 }
 
 func (H *nH) before(n *nNode) nPre {
+	H.cur = n
 	p := nPre{target: n, attached: n.parent != nil, slabs: map[*nNode]int{}}
 	if p.attached {
 		p.wasInl = n.inlined()
@@ -809,6 +823,9 @@ func (H *nH) before(n *nNode) nPre {
 func (H *nH) after(p nPre, name string) {
 	n := p.target
 	H.rep.Op(name)
+	if n.parent == nil {
+		n.cbParent = nil // the first mutation of an outermost container drops an outdated parent callback
+	}
 	if n.dead {
 		return
 	}
@@ -885,6 +902,7 @@ func (H *nH) adoptChild(n *nNode, e *nElem) {
 	if e.child != nil {
 		H.dropRoot(e.child)
 		e.child.parent = n
+		e.child.cbParent, e.child.cbGen = n, n.wgen
 		if e.child.detached {
 			H.attaches++
 			H.rep.Event("reattach")
@@ -1240,6 +1258,11 @@ func (H *nH) iterate(p *nNode) {
 
 func (H *nH) setWrapper(n *nNode, v atree.Value, kind int) {
 	n.hkind = kind
+	n.wgen++
+	n.cbParent, n.cbGen = n.parent, 0
+	if n.parent != nil {
+		n.cbGen = n.parent.wgen
+	}
 	if n.isMap {
 		m, ok := v.(*atree.OrderedMap)
 		if !ok {
